@@ -749,13 +749,24 @@ func (w *World) sentinelError(v ssa.Value) bool {
 // cannot touch the shared state the scheduling rules reason about. Used as EnumOpts.Opaque
 // by rules that refer to such helpers (constructors, converters) by name.
 func (w *World) statelessCallee(f *ssa.Function) bool {
-	for _, p := range f.Params {
-		if pt, ok := p.Type().Underlying().(*types.Pointer); ok {
+	modStructPtr := func(t types.Type) bool {
+		if pt, ok := t.Underlying().(*types.Pointer); ok {
 			if n, ok := pt.Elem().(*types.Named); ok && n.Obj().Pkg() != nil && w.InModulePkg(n.Obj().Pkg()) {
 				if _, ok := n.Underlying().(*types.Struct); ok {
-					return false
+					return true
 				}
 			}
+		}
+		return false
+	}
+	for _, p := range f.Params {
+		if modStructPtr(p.Type()) {
+			return false
+		}
+		// a list of such pointers (a named list type with methods, say): the elements and the shared
+		// backing array are reachable through it
+		if sl, ok := p.Type().Underlying().(*types.Slice); ok && modStructPtr(sl.Elem()) {
+			return false
 		}
 	}
 	return true
